@@ -15,8 +15,9 @@ import (
 
 // Bar represents a progress bar.
 type Bar struct {
-	index        int // used by heap
-	priority     int // used by heap
+	index        int  // used by heap
+	priority     int  // used by heap
+	popped       bool // used by heap: moved above all bars by pop-completed mode, its place is final
 	frameCh      chan *renderFrame
 	operateState chan func(*bState)
 	container    *Progress
